@@ -30,10 +30,12 @@ const (
 	TReturn
 	TReturnValue
 	TDup // construct the child once, use it twice: Combine(c, c)
+	TBreakable   // seq.Breakable(A): a Break raised inside A ends A normally
+	TContinuable // seq.Continuable(A): a Continue raised inside A ends A normally
 	nTK
 )
 
-var tkName = [...]string{"Bind", "BindRecv", "Delay", "Combine", "For", "While", "Loop", "Normal", "Break", "Continue", "Return", "ReturnValue", "Dup"}
+var tkName = [...]string{"Bind", "BindRecv", "Delay", "Combine", "For", "While", "Loop", "Normal", "Break", "Continue", "Return", "ReturnValue", "Dup", "Breakable", "Continuable"}
 
 const nCtr = 4
 
@@ -141,7 +143,7 @@ func (t *Term) write(b *strings.Builder) {
 		b.WriteString(", ")
 		t.B.write(b)
 		b.WriteString(")")
-	case TDup:
+	case TDup, TBreakable, TContinuable:
 		b.WriteString("(")
 		t.A.write(b)
 		b.WriteString(")")
@@ -266,6 +268,10 @@ func toSeq(t *Term, st *state) seq.Seq[int] {
 	case TDup:
 		a := toSeq(t.A, st)
 		return seq.Combine(a, a)
+	case TBreakable:
+		return seq.Breakable(toSeq(t.A, st))
+	case TContinuable:
+		return seq.Continuable(toSeq(t.A, st))
 	case TFor:
 		body := toSeq(t.A, st)
 		return seq.For(func() bool { return st.cond(t.Cond) }, func() { st.stmts(t.Post) }, body)
@@ -327,7 +333,7 @@ func construct(t *Term, st *state) *cnode {
 	case TDup:
 		c.a = construct(t.A, st)
 		c.b = c.a
-	case TFor, TWhile, TLoop:
+	case TFor, TWhile, TLoop, TBreakable, TContinuable:
 		c.a = construct(t.A, st)
 	}
 	return c
@@ -363,6 +369,18 @@ func (r *refRun) exec(c *cnode) (sig, int) {
 			return s, v
 		}
 		return r.exec(c.b)
+	case TBreakable:
+		s, v := r.exec(c.a)
+		if s == sBreak {
+			s = sNormal
+		}
+		return s, v
+	case TContinuable:
+		s, v := r.exec(c.a)
+		if s == sContinue {
+			s = sNormal
+		}
+		return s, v
 	case TFor, TWhile, TLoop:
 		first := true
 		for {
@@ -515,7 +533,7 @@ func (g *gen) term(depth int) *Term {
 	case TCombine:
 		t.A = g.term(depth + 1)
 		t.B = g.term(depth + 1)
-	case TDup:
+	case TDup, TBreakable, TContinuable:
 		t.A = g.term(depth + 1)
 	case TFor:
 		t.Cond = g.cond()
